@@ -86,3 +86,64 @@ func VerifC15_Latency(h *zz.H) {
 		}
 	}
 }
+
+// VerifC15_LatencyJitter: refreshes are NOT on the exact period grid (ticker jitter, an extra
+// refresh from a target Reset between ticks): R refreshes at symbolic increasing instants. The
+// window keeps whole slots, so the sample set of a refresh at T is that of the slots ending after
+// T - size (slot granularity); exported statistics must be bounded by those samples.
+func VerifC15_LatencyJitter(h *zz.H) {
+	const period = int64(10)
+	size := time.Duration(2 * period)
+	var clock int64
+	Now = func() time.Time { return time.Unix(0, clock) }
+	l := New([]time.Duration{size}, nil)
+	t0 := h.Int64("t0")
+	h.Assume(t0 > 0 && t0 < 1<<50)
+	R := h.Param("R", 3)
+	type sample struct {
+		round int
+		lat   int64
+	}
+	var samples []sample
+	ends := []int64{t0}
+	avgName, maxName, minName := MetadataName(size, Avg), MetadataName(size, Max), MetadataName(size, Min)
+	prev := t0
+	for r := 1; r <= R; r++ {
+		T := h.Int64("refresh_at")
+		h.Assume(T > prev && T <= prev+3*period)
+		if h.Range("sample", 0, 1) == 1 {
+			at := h.Int64("at")
+			h.Assume(at > prev && at <= T)
+			lat := h.Int64("lat")
+			h.Assume(lat > -(1<<40) && lat < 1<<40)
+			clock = at
+			l.Compute(time.Unix(0, at-lat))
+			samples = append(samples, sample{r, lat})
+		}
+		clock = T
+		m := &c15Meta{}
+		l.UpdateReset(m)
+		ends = append(ends, T)
+		prev = T
+		for _, e := range m.sets {
+			// samples of the slots that end after T - size
+			any := false
+			var lo, hi int64
+			for _, s := range samples {
+				in := ends[s.round] > T-int64(size)
+				lo = zz.IteInt(zz.And(in, zz.Or(!any, s.lat < lo)), s.lat, lo)
+				hi = zz.IteInt(zz.And(in, zz.Or(!any, s.lat > hi)), s.lat, hi)
+				any = zz.Or(any, in)
+			}
+			h.Assert(any, "C15: latency statistics are exported only for a window that has samples")
+			switch e.name {
+			case avgName:
+				h.Assert(zz.Implies(any, zz.And(e.v >= lo, e.v <= hi)), "C15: exported average latency is bounded by the samples of the window's slots (off-grid refresh)")
+			case maxName:
+				h.Assert(zz.Implies(any, zz.And(e.v >= lo, e.v <= hi)), "C15: exported maximum latency is bounded by the samples of the window's slots (off-grid refresh)")
+			case minName:
+				h.Assert(zz.Implies(any, zz.And(e.v >= lo, e.v <= hi)), "C15: exported minimum latency is bounded by the samples of the window's slots (off-grid refresh)")
+			}
+		}
+	}
+}
